@@ -204,13 +204,17 @@ def run(run):
                 for nm, q, exp in (("sort_values.head", df.sort_values(by).head(nr, compute=False), pdf.sort_values(by, kind="stable").head(nr)),
                                    ("sort_values.tail", df.sort_values(by).tail(nr, compute=False), pdf.sort_values(by, kind="stable").tail(nr)),
                                    ("set_index.head", df.set_index(by).head(nr, compute=False), pdf.set_index(by).sort_index(kind="stable").head(nr)),
-                                   ("set_index.tail", df.set_index(by).tail(nr, compute=False), pdf.set_index(by).sort_index(kind="stable").tail(nr))):
+                                   ("set_index.tail", df.set_index(by).tail(nr, compute=False), pdf.set_index(by).sort_index(kind="stable").tail(nr)),
+                                   ("set_index(drop=False).head", df.set_index(by, drop=False).head(nr, compute=False), pdf.set_index(by, drop=False).sort_index(kind="stable").head(nr)),
+                                   ("set_index(drop=False).tail", df.set_index(by, drop=False).tail(nr, compute=False), pdf.set_index(by, drop=False).sort_index(kind="stable").tail(nr))):
                     got = try_(lambda: q.compute())
                     if got[0] == "raise":
                         run.violation("%s(%d) by %s raises %s" % (nm, nr, by, got[1]), {"kind": "sorted-head", "name": nm})
                         continue
                     # ties among equal keys may be broken differently: compare the key column and the multiset of rows
                     keycol = (lambda x: list(x[by]) if by in x.columns else list(x.index))
+                    if list(got[1].columns) != list(exp.columns):
+                        run.violation("%s(%d) by %s returns columns %s, expected %s" % (nm, nr, by, list(got[1].columns), list(exp.columns)), {"kind": "sorted-head", "name": nm, "by": by, "n": nr})
                     if keycol(got[1]) != keycol(exp):
                         run.violation("%s(%d) by %s returns keys %s, expected %s" % (nm, nr, by, keycol(got[1]), keycol(exp)), {"kind": "sorted-head", "name": nm, "by": by, "n": nr})
         known_d22(run, rt, tmp)
